@@ -1,4 +1,5 @@
 import Pocket.Lemmas.StoreRead
+import Pocket.Lemmas.Refine
 /-
 C12 — a store call that fails changes nothing observable.
 Every lookup, query, marker query and index entry count is a function of the committed tables
@@ -49,5 +50,50 @@ example :
     let s := run {} [.store e1, .store e2]
     (storeEvent s req).1 = .invalidDelete ∧ (storeEvent s req).2.db = s.db := by
   decide +kernel
+
+/-! ### the same through the abstract store (`Spec/AbsStore.lean`)
+
+The concrete model mirrors the code (victims enumerated in the committed view and removed from the
+transaction view by offset, "anything left ⇒ replaced", markers folded tag by tag).  The abstract store
+is what the property texts describe.  They are proved equal, reply and state, on every consistent state
+and therefore along every history — so a property can be read off the short abstract definition. -/
+
+/-- the concrete model of `store_event` computes exactly the abstract store -/
+theorem store_refines_abstract (s : Store) (hi : Inv s) (e : EventRec) :
+    (storeEvent s e).1 = (absStore (Abs.of s) e).1 ∧ Abs.of (storeEvent s e).2 = (absStore (Abs.of s) e).2 :=
+  storeEvent_refines s hi e
+
+/-- … along every history of stores (accepted or refused, deletion requests included), removals and
+reopens from the empty store -/
+theorem history_refines_abstract (ops : List AOp) :
+    Abs.of (run {} (ops.map AOp.toOp)) = ops.foldl absStep (Abs.of {}) :=
+  run_refines ops {} Inv_init
+
+/-- on the abstract store C12 is a one-line reading: whatever the refusal, the retrievable events and
+both kinds of markers are untouched (only the append log may have grown) -/
+theorem abstract_failed_store (a : Abs) (e : EventRec) (h : ∀ off, (absStore a e).1 ≠ .ok off) :
+    (absStore a e).2.live = a.live ∧ (absStore a e).2.delIds = a.delIds ∧ (absStore a e).2.delAddrs = a.delAddrs := by
+  unfold absStore at h ⊢
+  by_cases c1 : (a.live.any fun x => x.id == e.id) = true
+  · simp only [c1, if_true, and_self]
+  simp only [c1, Bool.false_eq_true, if_false] at h ⊢
+  by_cases c2 : a.delIds.contains e.id = true
+  · simp only [c2, if_true, and_self]
+  simp only [c2, Bool.false_eq_true, if_false] at h ⊢
+  by_cases c3 : coveredBy a.delAddrs e = true
+  · simp only [c3, if_true, and_self]
+  simp only [c3, Bool.false_eq_true, if_false] at h ⊢
+  by_cases c4 : (absPre a.live e).2 = true
+  · simp only [c4, if_true, and_self]
+  simp only [c4, Bool.false_eq_true, if_false] at h ⊢
+  by_cases c5 : e.kind = 5
+  · simp only [c5, if_true] at h ⊢
+    cases hd : absDeletion a.live e e.tags
+        (if isEphemeral 5 = true then (absPre a.live e).1 else (absPre a.live e).1 ++ [e]) a.delIds a.delAddrs with
+    | ok l di da => rw [hd] at h; exact absurd rfl (h (align8 a.end))
+    | invalid => exact ⟨rfl, rfl, rfl⟩
+    | err => exact ⟨rfl, rfl, rfl⟩
+  · simp only [c5, if_false] at h
+    exact absurd rfl (h (align8 a.end))
 
 end Pocket.C12
